@@ -26,33 +26,130 @@ func init() {
 type Shard struct {
 	S     *shard.Shard
 	Path  string
-	Col   models.Collection
+	Col   models.Collection // with the schema as the harness names it
 	Mgr   *cache.Manager
 	Proxy *Proxy
+	// names: harness property name -> the name the shard really runs with (OpenNamed). Translated on the
+	// way in (schema, documents, queries, select, sort, bucket names) and back on the way out (documents).
+	names, back map[string]string
+}
+
+func (s *Shard) real(p string) string {
+	if n, ok := s.names[p]; ok {
+		return n
+	}
+	return p
+}
+
+func renameKeys(d map[string]any, m map[string]string) map[string]any {
+	if len(m) == 0 || d == nil {
+		return d
+	}
+	out := make(map[string]any, len(d))
+	for k, v := range d {
+		if n, ok := m[k]; ok {
+			out[n] = v
+		} else {
+			out[k] = v
+		}
+	}
+	return out
+}
+
+func (s *Shard) realQuery(q models.Query) models.Query {
+	q.Property = s.real(q.Property)
+	sub := func(f *models.Query) *models.Query {
+		if f == nil {
+			return nil
+		}
+		g := s.realQuery(*f)
+		return &g
+	}
+	if q.VectorFlat != nil {
+		o := *q.VectorFlat
+		o.Filter = sub(o.Filter)
+		q.VectorFlat = &o
+	}
+	if q.VectorVamana != nil {
+		o := *q.VectorVamana
+		o.Filter = sub(o.Filter)
+		q.VectorVamana = &o
+	}
+	if q.Text != nil {
+		o := *q.Text
+		o.Filter = sub(o.Filter)
+		q.Text = &o
+	}
+	for i := range q.And {
+		q.And[i] = s.realQuery(q.And[i])
+	}
+	for i := range q.Or {
+		q.Or[i] = s.realQuery(q.Or[i])
+	}
+	return q
+}
+
+// realBucket translates "index/<type>/<property>".
+func (s *Shard) realBucket(name string) string {
+	if len(s.names) == 0 {
+		return name
+	}
+	for prop, sv := range s.Col.IndexSchema {
+		if name == fmt.Sprintf("index/%s/%s", sv.Type, prop) {
+			return fmt.Sprintf("index/%s/%s", sv.Type, s.real(prop))
+		}
+	}
+	return name
 }
 
 // Open opens (creating if needed) the shard database at path ("" = in-memory
 // backend). mgr nil means "cache disabled" exactly as in semadb.
 func Open(path string, schema models.IndexSchema, maxPointSize int, mgr *cache.Manager) (*Shard, error) {
+	return OpenNamed(path, schema, maxPointSize, mgr, nil)
+}
+
+// OpenNamed is Open for a shard that really runs under other property names than the harness uses:
+// names maps a (top-level, undotted) property of schema to the name given to semadb. Everything the
+// harness sees keeps its own names.
+func OpenNamed(path string, schema models.IndexSchema, maxPointSize int, mgr *cache.Manager, names map[string]string) (*Shard, error) {
 	col := models.Collection{
 		UserId: "verif", Id: "col", Replicas: 1,
 		UserPlan:    models.UserPlan{Name: "verif", MaxCollections: 10, MaxCollectionPointCount: 1 << 40, MaxPointSize: maxPointSize},
 		IndexSchema: schema,
 	}
-	s, err := shard.NewShard(path, col, mgr)
+	realCol := col
+	back := map[string]string{}
+	if len(names) > 0 {
+		realCol.IndexSchema = models.IndexSchema{}
+		for p, sv := range schema {
+			n := p
+			if r, ok := names[p]; ok {
+				n = r
+				back[r] = p
+			}
+			realCol.IndexSchema[n] = sv
+		}
+		if len(realCol.IndexSchema) != len(schema) {
+			return nil, fmt.Errorf("renaming %v makes two properties of the schema collide", names)
+		}
+	}
+	s, err := shard.NewShard(path, realCol, mgr)
 	if err != nil {
 		return nil, err
 	}
 	p := NewProxy(s.VerifDB(), path)
 	s.VerifSetDB(p)
-	return &Shard{S: s, Path: path, Col: col, Mgr: mgr, Proxy: p}, nil
+	return &Shard{S: s, Path: path, Col: col, Mgr: mgr, Proxy: p, names: names, back: back}, nil
 }
+
+// Names returns the renaming the shard was opened with.
+func (s *Shard) Names() map[string]string { return s.names }
 
 // CacheNames lists the shared-cache names this shard may create.
 func (s *Shard) CacheNames() []string {
 	var names []string
 	for prop, sv := range s.Col.IndexSchema {
-		names = append(names, fmt.Sprintf("%s/index/%s/%s", s.Path, sv.Type, prop))
+		names = append(names, fmt.Sprintf("%s/index/%s/%s", s.Path, sv.Type, s.real(prop)))
 	}
 	sort.Strings(names)
 	return names
@@ -84,10 +181,21 @@ func ToPoints(ps []model.Point) []models.Point {
 	return out
 }
 
-func (s *Shard) Insert(ps []model.Point) error { return s.S.InsertPoints(ToPoints(ps)) }
+func (s *Shard) toPoints(ps []model.Point) []models.Point {
+	if len(s.names) == 0 {
+		return ToPoints(ps)
+	}
+	out := make([]models.Point, len(ps))
+	for i, p := range ps {
+		out[i] = models.Point{Id: p.Id, Data: model.Encode(model.Doc(renameKeys(map[string]any(p.Doc), s.names)))}
+	}
+	return out
+}
+
+func (s *Shard) Insert(ps []model.Point) error { return s.S.InsertPoints(s.toPoints(ps)) }
 
 func (s *Shard) Update(ps []model.Point) ([]uuid.UUID, error) {
-	return s.S.UpdatePoints(ToPoints(ps))
+	return s.S.UpdatePoints(s.toPoints(ps))
 }
 
 func (s *Shard) Delete(ids []uuid.UUID) ([]uuid.UUID, error) {
@@ -124,7 +232,17 @@ func CopyRequest(r models.SearchRequest) models.SearchRequest {
 
 // Search runs a search on a private copy of the request and decodes the rows.
 func (s *Shard) Search(req models.SearchRequest) ([]Row, error) {
-	res, err := s.S.SearchPoints(CopyRequest(req))
+	req = CopyRequest(req)
+	if len(s.names) > 0 {
+		req.Query = s.realQuery(req.Query)
+		for i := range req.Select {
+			req.Select[i] = s.real(req.Select[i])
+		}
+		for i := range req.Sort {
+			req.Sort[i].Property = s.real(req.Sort[i].Property)
+		}
+	}
+	res, err := s.S.SearchPoints(req)
 	if err != nil {
 		return nil, err
 	}
@@ -142,6 +260,7 @@ func (s *Shard) Search(req models.SearchRequest) ([]Row, error) {
 			row.Doc = d
 			row.HasDoc = true
 		}
+		row.Doc = renameKeys(row.Doc, s.back)
 		rows[i] = row
 	}
 	return rows, nil
@@ -161,7 +280,7 @@ func (s *Shard) Dump(buckets ...string) (map[string]map[string][]byte, error) {
 	out := map[string]map[string][]byte{}
 	err := s.Proxy.Inner().Read(func(bm diskstore.BucketManager) error {
 		for _, name := range buckets {
-			b, err := bm.Get(name)
+			b, err := bm.Get(s.realBucket(name))
 			if err != nil {
 				return err
 			}
